@@ -39,6 +39,7 @@ def tests_for(files):
 def main(argv):
     wt, x = argv[0], argv[1]
     tests_mode, checks, store_as = 'auto', None, None
+    out_override = None
     it = iter(argv[2:])
     for a in it:
         if a == '--tests':
@@ -47,7 +48,9 @@ def main(argv):
             checks = next(it).split(',')
         elif a == '--as':
             store_as = next(it)
-    out = os.path.join(wt, 'out', x)
+        elif a == '--out':
+            out_override = next(it)
+    out = out_override or os.path.join(wt, 'out', x)
     meta = json.load(open(os.path.join(out, 'meta.json')))
     prop = meta['property']
     checks = checks or [prop]
@@ -55,7 +58,7 @@ def main(argv):
     rc, st = sh(['git', '-C', wt, 'status', '--porcelain', '--untracked-files=no'])
     if st.strip():
         print('worktree not clean:', st); return 2
-    rc0, o0 = sh(['/venv/bin/python', 'out/%s/demo.py' % x], cwd=wt, env=env, timeout=1800)
+    rc0, o0 = sh(['/venv/bin/python', os.path.join(out, 'demo.py')], cwd=wt, env=env, timeout=1800)
     print('demo on clean tree: rc=%d' % rc0)
     rc, o = sh(['git', '-C', wt, 'apply', os.path.join(out, 'patch.diff')])
     if rc:
@@ -65,7 +68,7 @@ def main(argv):
         rc, files = sh(['git', '-C', wt, 'diff', '--name-only'])
         files = files.split()
         report['files'] = files
-        rc1, o1 = sh(['/venv/bin/python', 'out/%s/demo.py' % x], cwd=wt, env=env, timeout=1800)
+        rc1, o1 = sh(['/venv/bin/python', os.path.join(out, 'demo.py')], cwd=wt, env=env, timeout=1800)
         print('demo with patch: rc=%d  %s' % (rc1, o1.strip().splitlines()[-1][:200] if o1.strip() else ''))
         report['demo_patched_rc'] = rc1
         tests = [] if tests_mode == 'none' else (['test'] if tests_mode == 'full' else tests_for(files))
